@@ -228,6 +228,8 @@ func checkC12(p *Prog, r *Report) {
 				default:
 					rClose.OK(cc, posOf(i), "connected event ∧ oneShell")
 				}
+			case nil != hnew && fn.Parent() == hnew && newClosesOnlyOnError(hnew, i):
+				rClose.OK(cc, posOf(i), "a deferred function of New closes the listener unless New is about to return successfully")
 			default:
 				rClose.Bad(cc, posOf(i), "the listener is closed in %s: only New's error paths and the connected-event case may do that", fnName(fn))
 			}
@@ -677,4 +679,11 @@ func isErrorsIsOfParam(pred *ssa.Function) bool {
 		}
 	})
 	return okShape && nil != is
+}
+
+// newClosesOnlyOnError: the Close call (in a function literal of New) is run
+// by a defer of New and skipped exactly when a flag is set, which happens
+// only on the way to New's successful return.
+func newClosesOnlyOnError(hnew *ssa.Function, closeCall ssa.Instruction) bool {
+	return flagGuardedBy(hnew, func(i ssa.Instruction) bool { return i == closeCall }, nil)
 }
